@@ -1,12 +1,13 @@
-(* Isolation of assembled components under the EXACT naming condition.
+(* Isolation of assembled components under a weaker naming condition.
 
    [AssemblyProofs.assembly_isolation] assumes [names_plain]: component
    names without any underscore.  That is sufficient, not necessary, and
    outside it the (repaired) mangling can be ambiguous: component "a" that
    declares the hidden "_b_y" and component "a_b" with the hidden "_y" both
-   use the global name "a_b_y" ([underscore_names_can_leak] below).
+   use the global name "a_b_y" ([underscore_names_can_leak] below: a leak
+   WITHOUT a collision, nothing is signalled).
 
-   What isolation needs is
+   The isolation theorem is proved here under the SUFFICIENT condition
      [names_ok]              a component name is not empty and does not
                              start with "_" (so that no recorded global
                              name looks hidden),
@@ -16,10 +17,15 @@
                              components with the same name,
      [visible_clean]         (AssemblyProofs) no declared visible variable
                              is named "d_..." for a component name d.
-   [names_plain] implies the first two.  For components whose hidden
-   identifiers all have the same length - in particular synthesized
-   implementations, which declare only "_goal" and "_hold" - the mangling is
-   unambiguous WHATEVER the component names are. *)
+   Necessity is not proved; [mangling_unambiguous] cannot simply be dropped
+   (the witness).  [names_plain] implies the first two.  For components
+   whose hidden identifiers all have the same length the mangling is
+   unambiguous without any further condition on the names; synthesized
+   implementations declare "_goal", "_hold" AND their primed copies
+   "_goal'", "_hold'" (`AutomatonStepper.vars = aut.vars`; the model's
+   [stepper_machine] has m_vars = names (a_decls A)): equal length within
+   the unprimed and within the primed identifiers, and a primed and an
+   unprimed one differ in their last character ([goal_hold_unambiguous]). *)
 From Coq Require Import List Bool String Ascii ZArith Lia.
 From Omega Require Import L4Steps.Mangle L4Steps.MangleProofs
   L4Steps.Stepper L4Steps.StepperProofs L4Steps.Assembly
@@ -59,7 +65,7 @@ Proof.
   exact (mangle_names_inj _ _ _ _ U1 U2 HK HH E).
 Qed.
 
-(* hidden identifiers of one length: nothing is required of the names *)
+(* hidden identifiers of one length: nothing more is required of the names *)
 Lemma length_append : forall a b : string,
   String.length (a ++ b) = String.length a + String.length b.
 Proof. induction a as [|c a IH]; intros b; simpl; [reflexivity|]. rewrite IH. reflexivity. Qed.
@@ -89,16 +95,36 @@ Proof.
 Qed.
 
 (* synthesized implementations (gr1.make_streett_transducer /
-   make_rabin_transducer) declare the hidden identifiers "_goal", "_hold" *)
+   make_rabin_transducer) declare the hidden identifiers "_goal", "_hold";
+   `aut.vars`, hence `AutomatonStepper.vars` and [stepper_machine]'s m_vars,
+   also holds their primed copies *)
 Definition hidden_goal_hold (ms : machines) : Prop :=
   forall c k, In c ms -> In k (m_vars (snd c)) -> is_hidden k = true ->
-    k = "_goal" \/ k = "_hold".
+    k = "_goal" \/ k = "_hold" \/ k = "_goal'" \/ k = "_hold'".
+
+(* the last character of a mangled name is that of the identifier *)
+Lemma is_primed_app : forall n k : string,
+  k <> "" -> is_primed (n ++ k) = is_primed k.
+Proof.
+  induction n as [|c n IH]; intros k NE; [reflexivity|].
+  change (String c n ++ k) with (String c (n ++ k)).
+  destruct (n ++ k) as [|d r] eqn:E.
+  - exfalso. destruct n; simpl in E; [exact (NE E)|discriminate].
+  - change (is_primed (String c (String d r))) with (is_primed (String d r)).
+    rewrite <- E. apply IH, NE.
+Qed.
 
 Theorem goal_hold_unambiguous : forall ms,
   hidden_goal_hold ms -> mangling_unambiguous ms.
 Proof.
-  intros ms GH. apply (same_length_unambiguous ms 5).
-  intros c k Hc Dk HK. destruct (GH c k Hc Dk HK) as [->| ->]; reflexivity.
+  intros ms GH c d Hc Hd k h Dk HK Dh HH E.
+  assert (P : is_primed k = is_primed h).
+  { rewrite <- (is_primed_app (fst c) k), <- (is_primed_app (fst d) h), E;
+      [reflexivity| |]; intros ->; discriminate. }
+  apply append_same_length; [|exact E].
+  destruct (GH c k Hc Dk HK) as [->|[->|[->| ->]]];
+    destruct (GH d h Hd Dh HH) as [->|[->|[->| ->]]];
+    (reflexivity || (vm_compute in P; discriminate)).
 Qed.
 
 (* ------------------------------------------------------------- isolation *)
@@ -123,7 +149,7 @@ Proof.
     destruct (NP nm Hnm) as [NE NU]. apply ok_name_not_hidden; assumption.
 Qed.
 
-(* assembly_isolation under the exact condition.  The recorded state G
+(* assembly_isolation under the sufficient condition above.  The recorded state G
    consists of the mangled outputs of the components.  The local view of a
    component [c]
    - exists (no spurious collision) and contains only variables c declares;
@@ -209,7 +235,8 @@ Proof.
   - apply names_plain_unambiguous, NP.
 Qed.
 
-(* assemblies of synthesized implementations: any names *)
+(* assemblies of synthesized implementations: beyond [names_ok] and
+   [visible_clean], no condition on the component names *)
 Corollary assembly_isolation_synthesized : forall ms outs G c,
   names_ok ms -> hidden_goal_hold ms -> visible_clean ms ->
   from_outputs ms outs G -> In c ms ->
@@ -225,6 +252,23 @@ Proof.
   apply goal_hold_unambiguous, GH.
 Qed.
 
+(* the state recorded by `init` consists of mangled outputs, too (for the
+   states recorded by `step`: AssemblyProofs.asm_step_from_outputs) *)
+Lemma asm_init_from_outputs : forall ms G,
+  machines_ok ms -> asm_init ms = Ok G ->
+  exists outs, from_outputs ms outs G.
+Proof.
+  intros ms G MOK H.
+  destruct (asm_init_sound _ _ MOK H) as [ND _].
+  unfold asm_init in H. destruct (asm_init_acc_inv _ _ _ H) as [parts [F [E _]]].
+  exists parts. split; [|split; [exact E|exact ND]].
+  clear E H ND. induction F as [|nm rg ms' parts' C F IH]; [constructor|].
+  constructor.
+  - destruct C as [S TG].
+    destruct (MOK nm (or_introl eq_refl)) as [MI _]. destruct (MI _ S) as [A B]. auto.
+  - apply IH. intros x Hx. apply MOK. right. exact Hx.
+Qed.
+
 (* ------------------------------------------------- the condition is needed *)
 (* component "a_b" has the hidden "_y" (always 7); component "a" DECLARES the
    hidden "_b_y" without ever writing it and copies what it sees there to
@@ -236,6 +280,10 @@ Definition leak_a : machine := {|
   m_vars := ["_b_y"; "u"]; m_init := Ok [("u", 0%Z)];
   m_step := fun l => Ok [("u", match lookup "_b_y" l with Some z => z | None => 0%Z end)] |}.
 Definition leak_ms : machines := [("a_b", leak_ab); ("a", leak_a)].
+(* the initial outputs of the two components, mangled, and the initial state *)
+Definition leak_outs : list (dict * dict) :=
+  [([("_y", 7%Z)], [("a_b_y", 7%Z)]); ([("u", 0%Z)], [("u", 0%Z)])].
+Definition leak_G : dict := [("a_b_y", 7%Z); ("u", 0%Z)].
 
 Example underscore_names_can_leak :
   names_ok leak_ms /\ visible_clean leak_ms /\ machines_ok leak_ms /\
@@ -245,9 +293,19 @@ Example underscore_names_can_leak :
   (exists a, run omit1 leak_ms 1 = Ok a /\
              s_state a = Some [("a_b_y", 7%Z); ("u", 7%Z)]) /\
   to_local [("a_b_y", 7%Z); ("u", 0%Z)] "a" ["_b_y"; "u"]
-  = Ok [("_b_y", 7%Z); ("u", 0%Z)].
+  = Ok [("_b_y", 7%Z); ("u", 0%Z)] /\
+  (* the initial state consists of mangled outputs and the conclusion of the
+     isolation theorem is FALSE for component "a" *)
+  asm_init leak_ms = Ok leak_G /\ from_outputs leak_ms leak_outs leak_G /\
+  ~ (exists L, to_local leak_G "a" (m_vars leak_a) = Ok L /\
+       forall k z, In (k, z) L ->
+         In k (m_vars leak_a) /\
+         if is_hidden k
+         then exists rg, In rg leak_outs /\
+                to_global (fst rg) "a" = Ok (snd rg) /\ In (k, z) (fst rg)
+         else exists rg, In rg leak_outs /\ In (k, z) (visible_vars (fst rg))).
 Proof.
-  split; [|split; [|split; [|split; [|split; [|split]]]]].
+  split; [|split; [|split; [|split; [|split; [|split; [|split; [|split; [|split]]]]]]]].
   - intros nm [<-|[<-|[]]]; simpl; split; (discriminate || reflexivity).
   - intros c d [<-|[<-|[]]] [<-|[<-|[]]] k; simpl;
       intros [<-|H]; try (intros; reflexivity); try contradiction;
@@ -270,4 +328,14 @@ Proof.
     discriminate.
   - eexists. split; reflexivity.
   - reflexivity.
+  - reflexivity.
+  - split; [|split].
+    + constructor; [|constructor; [|constructor]];
+        (split; [repeat constructor; simpl; intuition discriminate
+                |split; [simpl; tauto|reflexivity]]).
+    + reflexivity.
+    + repeat constructor; simpl; intuition discriminate.
+  - intros [L [E H]]. vm_compute in E. injection E as <-.
+    destruct (H "_b_y" 7%Z (or_introl eq_refl)) as [_ X]. simpl in X.
+    destruct X as [rg [[<-|[<-|[]]] [_ I]]]; simpl in I; intuition discriminate.
 Qed.
